@@ -79,6 +79,16 @@ where
     pub fn dim1(&self) -> usize {
         self.α.len()
     }
+
+    // ζ = Π (z_i/α_i)^{2α_i} - ||w||² > 0, computed exactly as in update_dual_grad_H
+    fn is_dual_interior_for_scaling(&self, z: &[T]) -> bool {
+        let dim1 = self.dim1();
+        let two: T = (2.).as_T();
+        let phi = zip(&self.α, z).fold(T::one(), |phi, (&αi, &zi)| phi * (zi / αi).powf(two * αi));
+        let ζ = phi - z[dim1..].sumsq();
+        ζ > T::zero()
+    }
+
     pub fn dim2(&self) -> usize {
         self.dim2
     }
@@ -152,6 +162,14 @@ where
         μ: T,
         _scaling_strategy: ScalingStrategy,
     ) -> bool {
+        // the barrier derivatives only exist strictly inside the dual cone.
+        // Report a failed scaling update (as the symmetric cones do) rather
+        // than tripping the assertion in update_dual_grad_H when rounding
+        // has pushed z onto or across the boundary
+        if !self.is_dual_interior_for_scaling(z) {
+            return false;
+        }
+
         // update both gradient and Hessian for function f*(z) at the point z
         self.update_dual_grad_H(z);
         self.data.μ = μ;
